@@ -321,7 +321,7 @@ pub fn run(run: &mut Run) -> Finish {
             for h in 0..n.pow(hl as u32) {
                 let seq: Vec<Op> = seq_of(h, n, hl).iter().map(|&i| ops[i]).collect();
                 if let Some(v) = replay_history(&text, &seq) {
-                    l.violation((idx << 16) | h.min(0xffff), v);
+                    l.violation_sub(idx, h, v);
                 }
                 l.traces += 1;
                 l.transitions += hl as u64;
@@ -342,7 +342,7 @@ pub fn run(run: &mut Run) -> Finish {
                 let ops: Vec<Op> = if pre { vec![Op::Count, op] } else { vec![op] };
                 if let Some(v) = replay_history(&text, &ops) {
                     slice_fail_count.fetch_add(1, std::sync::atomic::Ordering::Relaxed);
-                    l.violation((idx << 12) | (j as u64).min(0xfff), v);
+                    l.violation_sub(idx, j as u64, v);
                 }
                 l.traces += 1;
                 l.transitions += ops.len() as u64;
